@@ -458,6 +458,14 @@ pub fn random_recipe(r: &mut Rng, family: Family, size: usize) -> Recipe {
     }
 }
 
+/// Recipe without jets (for the Miri leg, which cannot cross FFI).
+pub fn jetfree_recipe(r: &mut Rng, size: usize) -> Recipe {
+    let mut rec = random_recipe(r, Family::Core, size);
+    rec.ops.retain(|o| !matches!(o, GOp::Jet(_) | GOp::JetApplied(_)));
+    rec.close = Close::Early;
+    rec
+}
+
 /// Several assertions, some of them sharing a hidden CMR (for the repeated-hidden-node rule).
 pub fn assert_recipe(r: &mut Rng, family: Family) -> Recipe {
     let mut ops = Vec::new();
